@@ -52,6 +52,17 @@ Known regions (tagged, and not generated on purpose):
            the `>` blocks of a quote when the separators are truly blank lines) collapse to one:
            '- a\n\n        x\n\n\n        y' -> 'x\n\ny'.  (The filler of the empty-block processor is only added when the
            *top-level* last child is the `pre`.)  Region: list-item placement and body has >= 2 consecutive blank lines.
+  F-C03-6  NEW: inside a block quote a code line that consists only of white space and contains a Unicode white-space character other than
+           the space (NBSP, FF, VT, EM SPACE, U+2028 ...) is emptied: '>     a\n>     \xa0\n>     b' -> 'a\n\nb' (BlockQuoteProcessor.clean
+           tests `line.strip() == ">"`; at top level and in list items the line is kept).  Region: see `explained_by_quote_ws_line`.
+  F-C03-7  NEW (not generated: raw blocks with omitted end tags are placed BEFORE our code only): an unterminated tag inside code (`<div`
+           with no `>` before the end of the code) reaches over to the `>` of the start tag of a following raw block; if that block leaves an
+           inner element open (`<div>\n<p>t\n</div>`), the `<p>` opens a raw block that never ends and all later code is emitted as raw
+           text: '    x <div\n\n<div>\n<p>t\n</div>\n\n`c`'.
+
+Unicode line boundaries and white space: a fifth of the bodies (gen/hostile.exotic) contain VT, FF, FS, GS, RS, NEL, U+2028, U+2029 (line ends for
+`str.splitlines()`, ordinary characters for the converter, which splits at "\n" only) or NBSP / EM SPACE / IDEOGRAPHIC SPACE, mostly between two
+non-white characters of a line, sometimes at a line start / end or as a whole line.  They are white space for the trimming (`str.strip`).
 """
 import re
 import markdown
@@ -72,9 +83,14 @@ FINDINGS = [
      'witness': {'kind': 'block', 'doc': '\n    <a f="\n    ></c>\n    bklzz>', 'body': '<a f="\n></c>\nbklzz>', 'extensions': []}},
     {'id': 'F-C03-3', 'property': 'C03', 'status': 'open', 'what': '>= 2 consecutive blank lines inside a code block in a list item collapse to one',
      'witness': {'kind': 'block', 'doc': '- a\n\n        x\n\n\n        y', 'body': 'x\n\n\ny', 'extensions': []}},
+    {'id': 'F-C03-6', 'property': 'C03', 'status': 'open', 'what': 'a code line inside a block quote that consists only of Unicode white space other than the space (NBSP, FF, EM SPACE ...) is emptied (`line.strip() == ">"`)',
+     'witness': {'kind': 'block', 'doc': '>     a\n>     \xa0\n>     b', 'body': 'a\n\xa0\nb', 'extensions': []}},
+    {'id': 'F-C03-7', 'property': 'C03', 'status': 'open', 'what': 'an unterminated tag inside code (`<div` with no `>` before the code ends) reaches over to the `>` of a following raw block\'s start tag; the block\'s unclosed inner element (`<p>` without `</p>`) then opens a raw block that never ends: later code is emitted as raw text',
+     'witness': {'kind': 'span', 'doc': '    x <div\n\n<div>\n<p>t\n</div>\n\n`c`', 'body': 'c', 'extensions': []}},
 ]
 
 PLACEBO = 'QZQZ'
+EXOTIC_P = 0.2        # share of bodies that get VT / FF / FS / GS / RS / NEL / U+2028 / U+2029 / NBSP / EM SPACE (gen/hostile.exotic)
 _CODE_RE = re.compile(r'<code[^>]*>(.*?)</code>', re.S)
 _UNESC = {'amp': '&', 'lt': '<', 'gt': '>', 'quot': '"'}
 _UNESC_RE = re.compile(r'&(amp|lt|gt|quot);')
@@ -84,6 +100,13 @@ _CHARREF_NOSEMI = re.compile(r'&#(?:[0-9]+|[xX][0-9a-fA-F]+)(?!;)')
 _LOOSE_COMMENT = re.compile(r'<!--(?:(?!--\s*>).)*?--\s+>', re.S)
 RAW_BLOCKS = ['<div>\n*x*\n</div>', '<!-- c -->', '<p>raw *p*</p>', '<hr>', '<table>\n<tr><td>[t](u)</td></tr>\n</table>',
               '<div class="a">\n\n# h\n\n</div>', '<?php x ?>']
+# legal HTML that omits optional end tags / is not perfectly nested: the block still ends at its own end tag (the stack of open tags is
+# unwound down to the matching tag); void elements inside.  Placed BEFORE our code only: after it, an unterminated tag in the hostile body
+# (`<div` with no `>` before the end of the code) reaches over to the next `>` -- the `>` of the block's start tag -- and the block's inner
+# unclosed elements then open a raw block that never ends (F-C03-7, registered with a witness, not generated).
+RAW_BLOCKS_OPEN = ['<ul>\n<li>one\n<li>two\n</ul>', '<div>\n<p>intro\n</div>', '<table>\n<tr><td>a<td>b\n<tr><td>c<td>d\n</table>',
+                   '<dl>\n<dt>t<dd>*d*\n</dl>', '<div><p>a<b>b</div>', '<div>\n<img src="a.png"><br>\n<input name="q">\n</div>',
+                   '<ol>\n<li><p>x<br>\n\n<li>y</ol>', '<div><span><em>u</span></em></div>']
 
 
 def unescape(s):
@@ -104,11 +127,23 @@ def law_span(body):
 
 
 def law_block(body):
+    # runs = maximal groups of non-empty lines (after input normalisation); each run is right-trimmed AS A STRING (`str.rstrip`): with
+    # Unicode white space (VT, FF, NEL, U+2028, NBSP ... -- not emptied by input normalisation, but white space for `rstrip`) a run can
+    # lose whole trailing lines; the blank lines between runs are kept
     ls = _empty_ws(body.split('\n'))
-    for i, l in enumerate(ls):
-        if i == len(ls) - 1 or ls[i + 1] == '':
-            ls[i] = l.rstrip()
-    return '\n'.join(ls).rstrip() + '\n'
+    out, run = [], []
+    for l in ls + ['']:
+        if l == '':
+            if run: out.append('\n'.join(run).rstrip()); run = []
+            out.append(None)
+        else:
+            run.append(l)
+    out.pop()                                   # the sentinel
+    # join: every element (run text or blank line) is followed by a line break, except that a blank line IS only a line break
+    text = ''
+    for i, x in enumerate(out):
+        text += ('' if x is None else x) + ('\n' if i < len(out) - 1 else '')
+    return text.rstrip() + '\n'
 
 
 def law_fenced(body):
@@ -126,7 +161,7 @@ def allowed(kind, body, obs):
     if kind == 'span':
         return obs.strip() == body.strip() and obs in body
     t = lambda x: '\n'.join(l.rstrip() for l in x.split('\n')).rstrip()
-    return t(obs) == t(body)
+    return t(obs) == t(body) or (kind == 'block' and t(obs) == t(law_block(body)))
 
 
 # ---------------------------------------------------------------- bodies
@@ -151,7 +186,9 @@ def block_body(rng):
         ls.append(l)
     if not ls[0].strip(' '): ls[0] = 'a' + ls[0]
     if rng.random() < 0.15: ls += rng.choice([[''], ['  '], ['', '']])
-    return hostile.clean('\n'.join(ls))
+    b = hostile.clean('\n'.join(ls))
+    if rng.random() < EXOTIC_P: b = hostile.exotic(rng, b)
+    return b
 
 
 def span_body(rng):
@@ -160,6 +197,7 @@ def span_body(rng):
     for i in range(1, n):
         ls[i] = rng.choice('abxyz') + rng.choice(['', ' ']) + ls[i]     # continuation lines start with a letter (docstring)
     b = hostile.clean('\n'.join(ls))
+    if rng.random() < EXOTIC_P: b = hostile.exotic(rng, b)
     if rng.random() < 0.15: b = rng.choice([' ', '  ']) + b
     if rng.random() < 0.15: b = b + rng.choice([' ', '  '])
     return b
@@ -334,7 +372,7 @@ def surroundings(rng, html):
     opt = docs.Opt(code=True, html=html)
     before = docs.blocks(rng, rng.choice([0, 0, 1, 1, 2, 3]), opt)
     after = docs.blocks(rng, rng.choice([0, 0, 1, 1, 2]), opt)
-    if rng.random() < 0.15: before.insert(rng.randint(0, len(before)), ('raw', rng.choice(RAW_BLOCKS)))
+    if rng.random() < 0.2: before.insert(rng.randint(0, len(before)), ('raw', rng.choice(RAW_BLOCKS + RAW_BLOCKS_OPEN)))
     if rng.random() < 0.15: after.insert(rng.randint(0, len(after)), ('raw', rng.choice(RAW_BLOCKS)))
     return before, after
 
@@ -398,7 +436,7 @@ def gen_case(rng):
     # directly under the last line of a raw HTML block, no blank line between (the extractor inserts the blank line itself; its
     # `intail` mode must end with that line)
     if kind == 'span' or (kind == 'block' and not chain and 'under-rule' not in label):
-        if rng.random() < 0.08: before.append(('raw', rng.choice(RAW_BLOCKS)))
+        if rng.random() < 0.08: before.append(('raw', rng.choice(RAW_BLOCKS + RAW_BLOCKS_OPEN)))
         if before and before[-1][0] == 'raw' and before[-1][1].startswith('<') and rng.random() < 0.6: glue = '\n'; label += '/glued-under-raw'
     if real_fence:
         after.append(('fenced', rng.choice(['```', '```', '````']).join(['', rng.choice(['', 'py']) + '\nreal *y* &lt; __z__\n', ''])))
@@ -469,6 +507,28 @@ def explained_by_deleted_empty_endtag(case, T1, cache):
     return 'F-C03-2' if (st in ('ok', 'drift') or (st == 'viol' and d.get('finding'))) else None
 
 
+def _uws_line(l):
+    """a line that is not empty after input normalisation (not made of spaces only) but is white space for `str.strip`"""
+    return l.strip(' ') != '' and l.strip() == ''
+
+
+def explained_by_quote_ws_line(case, obs):
+    """F-C03-6.  Region predicate: indented-block placement with a block-quote wrapper, the body has a line made only of white space that
+    contains a Unicode white-space character other than the space (VT, FF, FS, GS, RS, NEL, NBSP, EM SPACE, U+2028 ...), and the observed
+    text is exactly what the law (plus the list-item blank-line collapse F-C03-3 where that applies) gives for the body with such lines
+    (all of them, or all but the ones written as lazy lines without `>`) emptied."""
+    if obs is None or case['kind'] != 'block' or 'q' not in case['label'].split('/')[1]: return None
+    ls = case['body'].split('\n')
+    idx = [i for i, l in enumerate(ls) if _uws_line(l)]
+    if not idx or len(idx) > 6: return None
+    for mask in range(1, 1 << len(idx)):
+        drop = set(i for k, i in enumerate(idx) if mask >> k & 1)
+        b2 = '\n'.join('' if i in drop else l for i, l in enumerate(ls))
+        want2 = law_block(b2)
+        if obs == want2 or allowed('block', b2, obs) or classify(case, obs, want2) is not None: return 'F-C03-6'
+    return None
+
+
 def evaluate(case, cache=None):
     """-> ('ok'|'skip'|'viol', detail dict)"""
     cache = {} if cache is None else cache
@@ -502,6 +562,7 @@ def evaluate(case, cache=None):
     if others_same and allowed(case['kind'], case['body'], obs):
         return 'drift', {'observed': repr(obs), 'law': repr(want)}
     finding = classify(case, obs, want) if others_same else None
+    if finding is None and others_same: finding = explained_by_quote_ws_line(case, obs)
     if finding is None and '</>' in case['body']: finding = explained_by_deleted_empty_endtag(case, T1, cache)
     if finding is None and _LOOSE_COMMENT.search(case['doc']): finding = 'F-C03-4'
     if finding is None:
@@ -537,6 +598,7 @@ def search(driver, rng, n):
         if '\n' in case['body']: bump('multiline-body')
         if '<' in case['body']: bump('body-has-<')
         if '&' in case['body']: bump('body-has-&')
+        if any(c in case['body'] for c in hostile.LINE_ENDS): bump('body-has-unicode-line-end')
         try:
             st, d = evaluate(case, cache)
         except Exception as e:
